@@ -657,8 +657,24 @@ def pure_functions(repo):
     out = []
     classes = exp_classes(repo)
     for c in classes.values():
+        # private helpers that are called only from declared mutators (or from other such helpers) are part of the mutator:
+        # `simplify` split into `_misordered` / `_swapped` still simplifies in place
+        callers = {}
         for name, f in c.methods.items():
-            if name in DECLARED_MUTATORS and name != "__call__":
+            for x in ast.walk(f.node):
+                if isinstance(x, ast.Call) and isinstance(x.func, ast.Attribute) and isinstance(x.func.value, ast.Name) and x.func.value.id == "self" and x.func.attr in c.methods:
+                    callers.setdefault(x.func.attr, set()).add(name)
+        helper_of_mutator = set()
+        changed = True
+        while changed:
+            changed = False
+            for name in c.methods:
+                if name.startswith("_") and not name.startswith("__") and name not in helper_of_mutator and callers.get(name):
+                    if all((cn in DECLARED_MUTATORS and cn != "__call__") or cn in helper_of_mutator for cn in callers[name]):
+                        helper_of_mutator.add(name)
+                        changed = True
+        for name, f in c.methods.items():
+            if (name in DECLARED_MUTATORS and name != "__call__") or name in helper_of_mutator:
                 continue
             out.append((f, "method %s.%s of the expression algebra" % (c.name, name)))
     oc = m.classes.get("_operator")
@@ -1332,7 +1348,8 @@ def r_span(repo, tier):
     if c is None:
         raise AnalysisError("class comp vanished")
     nst = 0
-    for f in c.methods.values():
+    for f0 in c.methods.values():
+        f = repo.func(EXPR, f0.qual)
         fn = f.node
         # P = <x>.parts[K]  ->  P.size == K[1]-K[0]
         subst0 = {}
